@@ -15,7 +15,7 @@ import (
 )
 
 func init() {
-	core.Register(core.Check{ID: "C16", Level: "model_checking", Run: func(c *core.Ctx) { runC16(c); historyPass(c, "C16"); reentrancyPass(c, "C16") }})
+	core.Register(core.Check{ID: "C16", Level: "model_checking", Run: func(c *core.Ctx) { runC16(c); historyPass(c, "C16"); reentrancyPass(c, "C16"); arch386Pass(c, "C16") }})
 }
 
 const c16Window = 89 // h + d <= 89 for strings of <= 90 characters; must not be widened (see DESIGN.md)
@@ -31,6 +31,29 @@ func runC16(c *core.Ctx) {
 	th := c.Thorough()
 	c.Rule = "syndrome model: states = syndromes of all single (89x31) and pair (C(89,2)x31^2) errors inside the 89-symbol window, taken from the real polymod; decision = no zero single, all singles distinct, no pair equal to a single, all pairs distinct (=> every error of weight <=4 has non-zero syndrome); acceptance constants: all 32^5 (thorough 32^6 = every 30-bit polymod value) checksum tails through the real Decode, any extra accepted constant is turned into weight<=4 patterns via the tables; model bound to the code by replaying every weight-2 (thorough: weight-3) pattern on the real polymod and every weight-1/2 (short words: 3, thorough 4) substitution through the real Decode"
 	var transitions, validated int64
+
+	// ---- conformance first: the real polymod against the BIP-173 transcription on every (length <= 100, one non-zero
+	// symbol at any position with any value) and on all-equal sequences. A polymod that is not THE polymod is reported as
+	// such (the model below would otherwise merely fail to describe it). ----
+	for n := 0; n <= 100; n++ {
+		for p := -1; p < n; p++ {
+			for a := 1; a < 32; a++ {
+				v := make([]byte, n)
+				if p >= 0 {
+					v[p] = byte(a)
+				} else {
+					for i := range v {
+						v[i] = byte(a)
+					}
+				}
+				validated++
+				if got, want := c16Polymod(v), rb.Polymod(v); got != want {
+					c.Violate("C16/polymod/differs-from-BIP173", fmt.Sprintf("polymod of %d symbols (%x) = %#x, BIP-173: %#x; the checksum is not the Bech32 BCH code", n, v, got, want), map[string]interface{}{"values": fmt.Sprintf("%x", v)}, "", nil)
+					return
+				}
+			}
+		}
+	}
 
 	// ---- the model: syndromes from the real polymod ----
 	zero := make([]byte, c16Window)
